@@ -1,11 +1,11 @@
 SPECIFICATION GSpec
 CONSTANTS
-  Tasks = {1, 2}
-  Queries = {1, 2, 3, 4, 5, 6}
-  Deps <- DepsD
-  Roots <- RootsD
+  Tasks = {1, 2, 3}
+  Queries = {1, 2, 3}
+  Deps <- DepsC
+  Roots <- RootsC
   SubscribeLate = FALSE
-  MaxAbandon = 0
+  MaxAbandon = 1
   SilentAbandon = FALSE
 INVARIANT Emit
 INVARIANT SingleFlight
